@@ -1,10 +1,11 @@
 #!/bin/bash
 # run every registered check (quick tier by default) and summarise; usage: tools/run_all.sh [quick|thorough] [seed]
 cd "$(dirname "$0")/.."
-TIER=${1:-quick}; SEED=${2:-0}
+TIER=${1:-quick}; SEED=${2:-0}; D=/tmp/run_all_$$; mkdir -p $D
 for id in C01 C02 C03 C04 C05 C06 C07 C08 C09 C10 C11 C12 C13 C14 C15 C16 C17 C18 C19 C20; do
   s=$(date +%s)
-  VERIF_SEED=$SEED ./check $id --tier $TIER > /tmp/run_all_$id.log 2>&1
+  VERIF_SEED=$SEED ./check $id --tier $TIER > $D/$id.log 2>&1
   rc=$?
-  echo "$id rc=$rc $(( $(date +%s) - s ))s $(grep -c '^VIOLATION' /tmp/run_all_$id.log) violations; $(grep -c '^KNOWN-FINDING' /tmp/run_all_$id.log) known; $(tail -1 /tmp/run_all_$id.log | cut -c1-160)"
+  echo "$id rc=$rc $(( $(date +%s) - s ))s $(grep -c '^VIOLATION' $D/$id.log) violations; $(grep -c '^KNOWN-FINDING' $D/$id.log) known; $(tail -1 $D/$id.log | cut -c1-160)"
 done
+echo "logs in $D"
